@@ -3,7 +3,7 @@ CONSTANTS
   Mains <- M1
   Reqs <- U1
   Cap = 3
-  MaxH = 4
+  MaxH = 3
   Desig0 <- DK1
   DesigChoices <- DNone
   Wallet <- W12
